@@ -27,6 +27,14 @@ CLAIMED["C14"] = {
     "technique": "early-exit chain extraction (dominators) + guard-fact entailment at the unsafe site + who-may-construct census + remainder normal form",
 }
 
+CLAIMED["C02"] = {
+    "category": "other",
+    "text": "Totality: every panic edge and profile-dependent arithmetic operation in the 16 instances reachable from BootInformation::load is enumerated and discharged by a fact. Acceptance/precedence: the early-exit chain of load (null, memory errors of C14's chain over the slice formed from the raw declared size, missing end tag, success) in dominance order with exact error constructors. End-tag predicate: both conjuncts and the normalised address base + total_size - 8. Accessor return terms. Decides the statement for every header content, not for samples.",
+    "design_ref": "DESIGN.md §4 C02",
+    "note": TB + "; relies on C14 (chain of ref_from_slice) and C20 (numeric equality of type ids); WrongAlignment/InvalidReportedTotalSize unreachable under the hypothesis is a hand step",
+    "technique": "panic-edge census over the instance call graph with guard-fact discharge + early-exit chain extraction + pointer normal form",
+}
+
 PENDING = "check not yet built in this session (machinery under construction; see DESIGN.md §9 build order) - not claimed until its premises run, pass on the repaired tree and fire on seeded breaks"
 NOT_APPLICABLE = {("C%02d" % i): PENDING for i in range(1, 21)}
 
